@@ -391,7 +391,7 @@ def generate(seed, tier):
     # 3c. copies between objects of different coding / dimension / constraint option / class
     kinds = ["assign", "assign", "oassign", "sliceassign", "slicecopy", "baseassign", "copy", "copyctor", "ocopy",
              "oclone", "self", "chain"]
-    reps = 6 if thorough else 1
+    reps = 12 if thorough else 3
     for kind in kinds:
         for ms in (1, 2, 3):
             for mt in (1, 2, 3):
@@ -432,6 +432,26 @@ def coverage_extra(cases, answers):
                 if pos:
                     d = int(math.floor(math.log10(min(pos))))
                     minp[d] = minp.get(d, 0) + 1
-    return {"dimension_histogram": {str(k): dims[k] for k in sorted(dims)}, "method_histogram": meth,
+    # copies: kind -> number of cases; how many go across codings / dimensions / constraint options
+    cp, cross = {}, {"coding": 0, "dimension": 0, "constraint": 0}
+    for c in cases:
+        t = c[0].split()
+        if len(t) > 1 and t[1].startswith("cp-"):
+            cp[t[1][3:]] = cp.get(t[1][3:], 0) + 1
+            d = {w[0]: w[1:] for w in t[2:] if w[1:].isdigit()}
+            if d.get("m") != d.get("t"):
+                cross["coding"] += 1
+            if d.get("n") != d.get("k"):
+                cross["dimension"] += 1
+            if len(d.get("a", "")) == 2 and d["a"][0] != d["a"][1]:
+                cross["constraint"] += 1
+    ops = {}
+    for c in cases:
+        for l in c[1:]:
+            w = l.split()[0]
+            if w in ("copy", "copyctor", "assign", "ocopy", "oclone", "oassign", "slicecopy", "sliceassign", "baseassign"):
+                ops[w] = ops.get(w, 0) + 1
+    return {"copy_cases_by_kind": cp, "copy_cases_across": cross, "copy_ops": ops,
+            "dimension_histogram": {str(k): dims[k] for k in sorted(dims)}, "method_histogram": meth,
             "param_ops_with_coordinate_within_1e-8_of_0_or_1": edge,
             "min_probability_decade_histogram": {str(k): minp[k] for k in sorted(minp)}}
